@@ -123,7 +123,10 @@ impl Clone for Tok {
     fn clone(&self) -> Self {
         let mut d = self.d;
         d.id = clone_id(self.d.id);
-        sched::hit(Kind::Clone, 0, self.d.id, d.id);
+        if sched::hit(Kind::Clone, 0, self.d.id, d.id) && !std::thread::panicking() {
+            std::panic::panic_any(crate::closures::PANIC_ABORT);
+        }
+        crate::closures::maybe_fault(crate::scenario::STAGE_CLONE, self.d.id, 0);
         Tok::new(d)
     }
 }
